@@ -171,6 +171,7 @@ namespace pure {
         std::vector<char> k_ok( 64, 1 ), m_ok( 64, 1 );
 #ifdef PURE_SANITIZED
         for ( unsigned k = 30; k < 64; ++k ) {
+            if ( !probe_selected( k )) { k_ok[k] = 0; continue; }
             ProbeResult r = ub_probe( [&pr, k]() { volatile size_t x = pr.probe_bucket_no( size_t( 0x123456789abcdef5ull ), k ); (void) x; } );
             if ( r.ok ) continue;
             k_ok[k] = 0;
@@ -178,6 +179,7 @@ namespace pure {
             report( "C27", key, "SplitListSet::bucket_no() with 2^" + num( k ) + " buckets executes undefined behaviour: " + r.msg + " at " + r.where, "{\"log2_bucket_count\":" + num( k ) + ",\"probe\":" + r.json() + "}" );
         }
         for ( unsigned m = 30; m < 64; ++m ) {
+            if ( !probe_selected( m )) { m_ok[m] = 0; continue; }
             ProbeResult r = ub_probe( [m]() { volatile size_t x = probe_type::probe_parent(( size_t( 1 ) << m ) + 5 ); (void) x; } );
             if ( r.ok ) continue;
             m_ok[m] = 0;
@@ -222,6 +224,9 @@ namespace pure {
         ps.evaluations.fetch_add( cases );
         ps.nontrivial.fetch_add( cases );
         ps.add_extra( "probe_cases", cases );
+        { uint64_t ke = 0, me = 0; for ( unsigned i = 0; i < 64; ++i ) { ke += k_ok[i]; me += m_ok[i]; }
+          ps.add_extra( "probe_bucket_no_table_sizes_evaluated_in_process", ke ); ps.add_extra( "probe_parent_bucket_msb_positions_evaluated_in_process", me ); }
+        ps.add_extra( "probe_forks", probe_forks().load());
         ps.add_extra( "probe_bucket_no_mismatches", bad_bno );
         ps.add_extra( "probe_parent_bucket_mismatches", bad_par );
         ps.add_variant( "C27.probe<bucket_no,parent_bucket>", cases );
